@@ -64,6 +64,7 @@ func init() {
 			return []Instance{
 				{Scenario: "pipe", Params: mustJSON(PipeParams{Mode: "gen", Alphabet: docs, Depth: d, Ops: ops}), Bound: 0, Shards: 8},
 				{Scenario: "pipe", Params: mustJSON(PipeParams{Mode: "gen", Alphabet: skip, Depth: d + 1, Ops: ops, SkipUntil: true}), Bound: 0, Shards: 8},
+				{Scenario: "pipe", Params: mustJSON(PipeParams{Mode: "gen", Alphabet: []string{"M", "Mbefore", "Mat", "Ebefore"}, Depth: d, Ops: ops, SkipUntil: true, SkipFrac: true}), Bound: 0, Shards: 4, Note: "skipUntil half a second after a whole second: events of that second are older"},
 				{Scenario: "pipe", Params: mustJSON(PipeParams{Mode: "gen", Alphabet: coll, Depth: d + 1, Ops: ops, Colls: true}), Bound: 0, Shards: 8},
 				{Scenario: "pipe", Params: mustJSON(PipeParams{Mode: "gen", Alphabet: append(append([]string{}, coll...), "Minfix", "Dinfix", "Mres"), Depth: d, Ops: ops, Colls: false}), Bound: 0, Shards: 4},
 				{Scenario: "c08_rollback", Params: mustJSON(RollbackParams{}), Bound: 0, Shards: 4, Note: "the documented rollback filter: nothing at or below the position already reached, everything above it"},
